@@ -143,8 +143,9 @@ func unsupported(format string, args ...interface{}) {
 
 // targetPanic is a Go panic in the interpreted program.
 type targetPanic struct {
-	v   Value
-	msg string
+	v     Value
+	msg   string
+	stack []string
 }
 
 func (in *Interp) intWidth(t types.Type) (w int, signed bool, ok bool) {
